@@ -103,6 +103,13 @@ def c17_pairs(ctx):
         pairs += list(exhaustive_pairs([0x61, 0x62], 4, 3))            # the smallest cases, all of them
     for _ in range(ctx.scale(1500, 40000)):
         pairs.append(planted_pair(rng))
+    # long patterns: at and past one byte's worth of pattern length (shift tables, 8-bit counters), planted and absent
+    for m in (254, 255, 256, 257, 300, 511, 512, 513) + ((1000, 4096) if ctx.tier == "thorough" else ()):
+        p = rng._raw(m) if rng.random() < 0.7 else (rng._raw(max(1, m // 7)) * 8)[:m]
+        pre, post = rng._raw(rng.randrange(0, 40)), rng._raw(rng.randrange(0, 40))
+        pairs.append((pre + p + post, p))
+        pairs.append((pre + p + p[:m // 2] + p + post, p))
+        pairs.append((pre + p[:-1] + post, p))
     return pairs
 
 def swap_cases(ctx):
@@ -199,6 +206,15 @@ def check_swap(args):
     rr = bytes(AcraNetwork.endianness_swap(r, g))
     if rr != b:
         return "endianness_swap is not its own inverse on %s (group %d): %s" % (b.hex(), g, rr.hex())
+    # other bytes-like arguments: when accepted, the same bytes give the same result
+    for mk in (bytearray, memoryview):
+        try:
+            alt = bytes(AcraNetwork.endianness_swap(mk(b), g))
+        except Exception:
+            continue
+        if alt != r:
+            return "endianness_swap(%s(%s), %d) returns %s, for the same bytes as a bytes object it returns %s" % (
+                mk.__name__, b.hex(), g, alt.hex(), r.hex())
     # the result belongs to the caller: editing it in place must not change what a later call returns
     m = AcraNetwork.endianness_swap(b, g)
     if isinstance(m, bytearray) and len(m):
@@ -362,6 +378,22 @@ def valid_capture(rng, big=False):
     while rng.random() < 0.35:
         recs.append(foreign_rec())
     return GHDR + b"".join(recs), exp
+
+def max_capture(rng):
+    """a capture whose middle SAM/DEC packet is the largest UDP datagram there is (65507 payload bytes: a pcap record of
+    65549 bytes, beyond the 65535 that files written by the library declare as snap length), between two small ones"""
+    L = 8
+    def frames_of(k, sync_free):
+        fs = [frame(rng, L, sync_free=sync_free) for _ in range(k)]
+        return fs
+    first = frames_of(2, True)
+    while naive_occ(b"".join(first), SYNC) != [0, L]:
+        first = frames_of(2, True)
+    kbig = (65507 - 28 - 10) // L
+    big = frames_of(kbig, False)
+    last = frames_of(2, False)
+    recs = [rec_bytes(samdec_packet(rng, fs), sec=rng.boundary(32), usec=rng.randrange(0, 10**6)) for fs in (first, big, last)]
+    return GHDR + b"".join(recs), first + big + last
 
 def quirk_capture(rng):
     """captures outside the hypotheses: every branch of the model (errors, resets, odd lengths)"""
@@ -567,7 +599,10 @@ def oracles_C18(ctx, hints):
     for i in range(ctx.scale(200, 5000) * (3 if getattr(ctx, "search_mode", False) else 1)):
         if fails:
             break
-        f, exp = valid_capture(rng, big=ctx.tier == "thorough") if i % 5 else spec_capture(rng)
+        if i == 1:
+            f, exp = max_capture(rng)
+        else:
+            f, exp = valid_capture(rng, big=ctx.tier == "thorough") if i % 5 else spec_capture(rng)
         ref = reference_frames(f)
         if ref != exp:
             raise RuntimeError("generator and reference reader disagree on a generated capture")
